@@ -1072,7 +1072,7 @@ def g_seeding(R, tier):
         A = lambda n: ast.arg(arg=n, annotation=None)
         node = ast.FunctionDef(name="f", args=ast.arguments(posonlyargs=[A("p")], args=[A("a"), A("c")], vararg=A("b"), kwonlyargs=[A("k")], kw_defaults=[None],
                                                             kwarg=A("d"), defaults=[]),
-                               body=[], decorator_list=[], returns=None, lineno=7, col_offset=0)
+                               body=CL.fn_body(), decorator_list=[], returns=None, lineno=7, col_offset=0)
         inner = c07.mk_function_nsp(node, inner_nonlocal_names={"a", "b", "d", "loc"}, nonlocal_parameters={"a", "b", "d"})
         outer = CL.mk_nsp("outer", inner_nsp=[inner])
         self_ = CL.mk_pending(pn.PendingFunctionDef, node, outer, CL.mk_global(), m=m)
@@ -1180,7 +1180,11 @@ def g_declared_global_under_a_shadow(R, tier):
                 # (a name that is global without a declaration in this very scope is never written here)
                 st = m.call_value(cls.get_assign, T, "x", V) if c.branch(fT["declared_global"]) else None
                 ld = m.call_value(cls.get_load_name, T, "x")
-                return dict(st=st, ld=ld, fB=fB)
+                # inside a comprehension / lambda of this scope whose own variable is called x, x is THAT variable
+                T.comp_stack.append(Opaque("binder", None, cands=frozenset([et().PendingComp]), fields=dict(target_names={"x"})))
+                ld_in = m.call_value(cls.get_load_name, T, "x")
+                T.comp_stack.pop()
+                return dict(st=st, ld=ld, ld_in=ld_in, fB=fB)
             paths = explore(run)
             nm = f"namespaces.Namespace{kind.capitalize()}[global-name,enclosing-function-{ {1: 'directly-around', 2: 'two-levels-up', 3: 'two-levels-up-behind-a-function-that-declares-it-global'}[depth]}]"
             if not paths_or_undecided(R, nm + "/paths", paths):
@@ -1198,6 +1202,8 @@ def g_declared_global_under_a_shadow(R, tier):
                 if v["st"] is not None:
                     got_s = loc_of_store(v["st"], p.ctx)
                     R.check(f"{nm}/writes-the-module-global/{sig}", got_s == ("global", "x"), repr(got_s), replay=dict(kind="scope"))
+                R.check(f"{nm}/a-comprehension-or-lambda-variable-of-that-name-wins/{sig}", loc_of_load(v["ld_in"], p.ctx) == ("plain", "x"), repr(loc_of_load(v["ld_in"], p.ctx)),
+                        replay=dict(kind="scope"))
                 ok_l = got_l == ("global", "x") or (got_l == ("plain", "x") and unshadowed)
                 R.check(f"{nm}/reads-the-module-global-not-the-enclosing-function-s-variable/{sig}", ok_l,
                         f"{got_l}; the enclosing function may have its own x: {shadowed}", replay=dict(kind="scope"))
@@ -1218,11 +1224,11 @@ def g_own_namespace_selection(R, tier):
             def run(c):
                 m = Machine(stubs=stubs())
                 if what == "def":
-                    node = ast.FunctionDef(name="f", args=ast.arguments(posonlyargs=[], args=[], kwonlyargs=[], kw_defaults=[], defaults=[]), body=[], decorator_list=[],
+                    node = ast.FunctionDef(name="f", args=ast.arguments(posonlyargs=[], args=[], kwonlyargs=[], kw_defaults=[], defaults=[]), body=CL.fn_body(), decorator_list=[],
                                            returns=None, lineno=7, col_offset=0)
                     match = c07.mk_function_nsp(node, tag="match")
                 else:
-                    node = ast.ClassDef(name="f", bases=[], keywords=[], body=[], decorator_list=[], lineno=7, col_offset=0)
+                    node = ast.ClassDef(name="f", bases=[], keywords=[], body=CL.fn_body(), decorator_list=[], lineno=7, col_offset=0)
                     symt = Opaque(("match", "symt"), object, methods=dict(get_lineno=lambda o: 7, get_name=lambda o: "f"))
                     match = CL.mk_nsp("match", kinds=("class",), symt=symt, class_member_dict_expr=ast.Name(id=Hole("clsdict", "ident", fresh=True)))
                 sibs = [decoy("same-name-other-line", 3, "f", kind), decoy("same-line-other-name", 7, "g", kind)] + ([match] if present else []) + [decoy("later", 9, "f", kind)]
@@ -1306,6 +1312,7 @@ GROUPS = {"declared_global_under_a_shadow": g_declared_global_under_a_shadow, "o
 
 # ----------------------------------------------------------------------------------------
 SCOPE_PROGRAMS = [
+    "n = 1000\nitem = 'module item'\ndef outer(n, item):\n    def inner():\n        global n, item\n        return [item for item in ('a', 'b')], (lambda n: n * 2)(100), n, item\n    return inner()\nr = outer(1, 'p')\n",
     # a name made global by a function in between is global in everything nested in that function (4.2.2)
     "x = 'global'\ndef f():\n    x = 'local'\n    def g():\n        global x\n        def h():\n            return x\n        class K:\n            y = x\n        return h(), K.y, (lambda: x)()\n    return g(), x\nr = f()\n",
     "x = 'g'\ndef outer(x):\n    y = 'local'\n    def inner():\n        global x, y\n        x = x + '!'\n        f = lambda: (x, [x for q in (1,)])\n        y = 'set'\n        return x, f()\n    class K:\n        global x\n        z = x\n    return inner(), x, y, K.z\nr = (outer('p'), x, y)\n",
@@ -1365,3 +1372,14 @@ def g_witness(R, tier):
 
 
 GROUPS["witness"] = g_witness
+
+
+def _import_bindings(R, tier):
+    """an import statement BINDS a name: through the namespace of its scope like every other binding
+    (global declarations, captured names, class members) -- the obligations of C14, required here too"""
+    from suites import c14
+    c14.g_import(R, tier)
+    c14.g_import_from(R, tier)
+
+
+GROUPS["import_bindings"] = _import_bindings
